@@ -651,8 +651,18 @@ func (pc plCase) build() Playlist {
 		n := 1 + pc.Extra%3
 		for i := 0; i < n; i++ {
 			s := segmentF((pc.Mask+i*37)%128, pc.VS+i)
-			s.URI = fmt.Sprintf("s%d_%d.mp4", pc.Mask, i)
 			s.Key = valKey(pc.VS + i*(1+pc.Extra/3))
+			if pc.Extra/3 == 7 {
+				// consecutive segments with the same optional fields and the same values (bit rate, key, byte range, ...):
+				// what is written once for a run of segments must still come back on each of them
+				s = segmentF(pc.Mask, pc.VS)
+				s.Key = valKey(pc.VS)
+				if s.DateTime != nil {
+					t := s.DateTime.Add(time.Duration(i) * s.Duration)
+					s.DateTime = &t
+				}
+			}
+			s.URI = fmt.Sprintf("s%d_%d.mp4", pc.Mask, i)
 			m.Segments = append(m.Segments, s)
 		}
 		// documented requirement: once a key is in force, "no key" is expressed as METHOD=NONE
@@ -812,7 +822,7 @@ func c14Cases(tier string) map[string][]plCase {
 	}
 	for mask := 0; mask < 128; mask++ {
 		for vs := 0; vs < 9; vs++ {
-			for extra := 0; extra < 21; extra++ {
+			for extra := 0; extra < 24; extra++ {
 				out["segments"] = append(out["segments"], plCase{Family: "segments", Mask: mask, VS: vs, Extra: extra})
 			}
 		}
@@ -1217,6 +1227,7 @@ var c15Menu = []string{
 	"#EXT-X-MAP:URI=\"\"", "#EXT-X-PRELOAD-HINT:TYPE=PART,URI=\"\"", "#EXT-X-STREAM-INF:BANDWIDTH=1,CODECS=\"a\"", "#EXT-X-STREAM-INF:BANDWIDTH=1",
 	"#EXT-X-MEDIA:TYPE=AUDIO,GROUP-ID=\"\"", "#EXT-X-MEDIA:TYPE=X,GROUP-ID=\"g\"", "#EXT-X-MEDIA:GROUP-ID=\"g\",NAME=\"n\"", "#EXT-X-KEY:METHOD=AES-128", "#EXT-X-BYTERANGE:1@", "#EXT-X-ENDLIST", "\t ",
 	"#EXT-X-PRELOAD-HINT:TYPE=MAP,URI=\"i.mp4\"", "#EXT-X-PRELOAD-HINT:TYPE=PART,URI=\"p.mp4\"",
+	"#EXTINF:0.4,", // a duration that is not zero but rounds to zero seconds
 }
 
 func c15Run(c *vh.Ctx) {
